@@ -43,6 +43,9 @@ pub struct GenCfg {
     pub unicode: bool,
     /// one text in twelve holds a lone `<` that opens no tag (`1 < 5`): it is text, and a real tag may follow it
     pub stray_lt: bool,
+    /// every project gets a top-level literal key whose float has 17 significant digits (D24: read one ULP off by a
+    /// JSON parser that does not round-trip)
+    pub precise_float_key: bool,
     pub formatters: bool,
     /// percent of variables that carry a formatter (when `formatters`)
     pub p_formatter: u32,
@@ -101,6 +104,7 @@ impl Default for GenCfg {
             p_inherits: 30,
             unicode: true,
             stray_lt: false,
+            precise_float_key: false,
             formatters: false,
             p_formatter: 25,
             tags: true,
@@ -342,7 +346,7 @@ impl<'t> Gen<'t> {
     }
 
     pub fn float_val(&mut self, ty: RangeTy) -> f64 {
-        let v: f64 = match self.t.weighted(&[4, 3, 2, 1, 1, 1]) {
+        let v: f64 = match self.t.weighted(&[4, 3, 2, 1, 1, 2]) {
             // numbers whose shortest decimal form has 17 significant digits and that a fast, non-round-tripping
             // JSON float parser reads one ULP off (finding D24)
             5 => {
@@ -579,7 +583,14 @@ impl<'t> Gen<'t> {
             0 => Value::U(self.t.range(0, 1000) as u64),
             1 => Value::Bool(self.t.coin()),
             2 => Value::I(-(self.t.range(1, 1000) as i64)),
-            3 => Value::F(((self.t.range(0, 4000) as f64) - 2000.0) / 16.0 + 0.5),
+            3 => {
+                // one float literal in four has 17 significant digits (read one ULP off by a non-round-tripping parser, D24)
+                if self.t.chance(1, 4) {
+                    Value::F(*self.t.choose(&[8.988465674311579e307, -8.988465674311579e307, 3.4028234663852886e38, -3.4028234663852886e38, 9.999999680285692e-41]))
+                } else {
+                    Value::F(((self.t.range(0, 4000) as f64) - 2000.0) / 16.0 + 0.5)
+                }
+            }
             _ => Value::U(self.t.u64()),
         }
     }
@@ -878,6 +889,16 @@ impl<'t> Gen<'t> {
             locales_dir,
             files,
         };
+        if self.cfg.precise_float_key {
+            const PRECISE: &[f64] = &[8.988465674311579e307, -8.988465674311579e307, 3.4028234663852886e38, -3.4028234663852886e38, 9.999999680285692e-41];
+            let ns = p.ns_list()[0].clone();
+            for l in p.locales.clone() {
+                let v = *self.t.choose(PRECISE);
+                if let Some(o) = p.files.get_mut(&(ns.clone(), l)) {
+                    o.push(("preciseflt".to_string(), Value::F(v)));
+                }
+            }
+        }
         if self.cfg.w_kinds[6] > 0 {
             self.add_foreign_keys(&mut p);
         }
